@@ -9,6 +9,12 @@ for fn in sorted(os.listdir(os.path.join(here, "claims"))):
     if fn.endswith(".json"):
         CLAIMED[fn[:-5]] = json.load(open(os.path.join(here, "claims", fn)))
 ALL = [json.loads(l)["id"] for l in open(os.path.join(here, "properties.jsonl"))]
+# only claim what is committed (a builder's work in progress has a claims file but no tracked harness yet)
+import subprocess
+tracked = set(subprocess.run(["git", "-C", here, "ls-files", "harness", "claims"], capture_output=True, text=True).stdout.split())
+for pid in list(CLAIMED):
+    if f"harness/{pid.lower()}.py" not in tracked:
+        CLAIMED.pop(pid)
 checks = []
 for pid in ALL:
     c = CLAIMED.get(pid)
